@@ -63,6 +63,9 @@ class Base(RuleBasedStateMachine):
         return not self.dead
 
     def teardown(self):
+        if self.world is not None and self.counting:
+            n = len(self.log)
+            self.rec.label("history-length:%s" % ("1-3" if n <= 3 else "4-8" if n <= 8 else "9+"))
         if self.world is not None and not self.dead and hasattr(self.world, "final_op"):
             op = self.world.final_op()
             if op is not None:
